@@ -40,18 +40,20 @@ func checksWriter() {
 	cNewScanner := contract{F, "bufio", "NewScanner", 25, []string{
 		`sc != nil && !(sc in old(ghost.v_scanPos))`,
 		`ghost.v_scanPos == put(old(ghost.v_scanPos), sc, 0)`,
+		`ghost.v_scanEnded == put(old(ghost.v_scanEnded), sc, false)`,
 		`v_linesOf(sc) == v_readerLines(r) && v_scanEnd(sc) == v_readerEnd(r)`,
 		`0 <= v_scanEnd(sc) && v_scanEnd(sc) <= len(v_linesOf(sc))`}}
 	cScan := contract{F, "bufio", "(Scanner) Scan", 31, []string{
 		`ok == (old(ghost.v_scanPos)[this] < v_scanEnd(this))`,
-		`ghost.v_scanPos == put(old(ghost.v_scanPos), this, old(ghost.v_scanPos)[this] + ite(ok, 1, 0))`}}
+		`ghost.v_scanPos == put(old(ghost.v_scanPos), this, old(ghost.v_scanPos)[this] + ite(ok, 1, 0))`,
+		`ghost.v_scanEnded == put(old(ghost.v_scanEnded), this, !ok)`}}.withRequires(`not-after-the-end: !ghost.v_scanEnded[this]`)
 	cBytes := contract{F, "bufio", "(Scanner) Bytes", 35, []string{
-		`ghost.v_scanPos[this] >= 1 ==> v_str(b) == v_linesOf(this)[ghost.v_scanPos[this] - 1]`}}
+		`ghost.v_scanPos[this] >= 1 && !ghost.v_scanEnded[this] ==> v_str(b) == v_linesOf(this)[ghost.v_scanPos[this] - 1]`}}
 	cErr := contract{F, "bufio", "(Scanner) Err", 37, []string{
-		`(err == nil) <==> v_scanEnd(this) == len(v_linesOf(this))`}}
+		`ghost.v_scanEnded[this] ==> ((err == nil) <==> v_scanEnd(this) == len(v_linesOf(this)))`}}
 	cNewReader := contract{F, "strings", "NewReader", 41, []string{
 		`r != nil && v_readerLines(r) == v_splitLines(s) && v_readerEnd(r) == v_textEnd(s)`}}
-	scanNote := "v_linesOf / v_scanEnd / v_readerLines / v_readerEnd / v_textEnd are uninterpreted: read as linesOf := v_splitLines(text) (documented: the \"\\n\"-separated pieces, one trailing \"\\r\" stripped, no empty last piece; own implementation), scanEnd := the number of lines the real scanner delivers; ghost.v_scanPos[sc] := number of successful Scan calls so far"
+	scanNote := "v_linesOf / v_scanEnd / v_readerLines / v_readerEnd / v_textEnd are uninterpreted: read as linesOf := v_splitLines(text) (documented: the \"\\n\"-separated pieces, one trailing \"\\r\" stripped, no empty last piece; own implementation), scanEnd := the number of lines the real scanner delivers; ghost.v_scanPos[sc] := number of successful Scan calls so far, ghost.v_scanEnded[sc] := the last Scan returned false (Scan requires !v_scanEnded: no Scan call is made after the first false one)"
 	for _, c := range []contract{cNewScanner, cScan, cBytes, cErr, cNewReader} {
 		notes[c.key()] = scanNote
 	}
@@ -135,7 +137,7 @@ func checksWriter() {
 				for i := 0; okPrefix && i < end; i++ {
 					okPrefix = x.bytesSeq[i] == lines[i]
 				}
-				t.Check(okPrefix, cNewScanner.ensures[3]+" / "+cNewReader.ensures[0], "Scanner over %s delivered %d tokens %.80q, the text has the %d lines %.80q", short(s), end, x.bytesSeq[:end], len(lines), lines)
+				t.Check(okPrefix, cNewScanner.ensures[4]+" / "+cNewReader.ensures[0], "Scanner over %s delivered %d tokens %.80q, the text has the %d lines %.80q", short(s), end, x.bytesSeq[:end], len(lines), lines)
 				pos := 0
 				for i, ok := range x.okSeq[:first] {
 					t.Check(ok == (pos < end), cScan.ensures[0], "Scanner over %s: Scan call %d returned %v at position %d of %d", short(s), i+1, ok, pos, end)
@@ -153,17 +155,6 @@ func checksWriter() {
 				t.Check(same, cNewReader.ensures[0], "two scanners over equal texts %s differ", short(s))
 			}
 		})
-	check("bufio.Scanner.Scan as declared: once Scan has returned false the position is unchanged, so every later Scan must be false as well",
-		[]contract{cScan}, bound+"; three more Scan calls after the first false", func(t *T) {
-			for i, s := range allTexts {
-				t.Case()
-				x := runs[i]
-				first, end := upToFirstFalse(x)
-				for j := first; j < len(x.okSeq); j++ {
-					t.Check(!x.okSeq[j], cScan.ensures[0], "Scanner over %s: Scan call %d returned false (position %d = v_scanEnd), Err()=%v, but Scan call %d returned TRUE with a token of %d bytes", short(s), first, end, x.errSeq[first], j+1, len(x.bytesSeq[j]))
-				}
-			}
-		})
 	check("bufio.Scanner.Bytes after a SUCCESSFUL Scan is the line just delivered",
 		[]contract{cBytes}, bound+usual, func(t *T) {
 			for i, s := range allTexts {
@@ -176,19 +167,25 @@ func checksWriter() {
 				}
 			}
 		})
-	check("bufio.Scanner.Bytes as declared: at EVERY moment with v_scanPos >= 1, also right after the Scan that returned false (the position is unchanged then)",
-		[]contract{cBytes}, bound+"; Bytes() called after the first false Scan", func(t *T) {
+	check("bufio.Scanner.Bytes at every moment of the protocol (after NewScanner, after every Scan up to and including the first false one): the clause speaks only while v_scanPos >= 1 and the scan has not ended",
+		[]contract{cBytes}, bound+"; Bytes() after every Scan call up to the first false (no Scan after that: Scan requires !v_scanEnded)", func(t *T) {
 			for i, s := range allTexts {
 				t.Case()
 				x := runs[i]
 				lines := specSplitLines(s)
-				first, end := upToFirstFalse(x)
-				if end >= 1 && end <= len(lines) && first <= len(x.bytesSeq) && first > end {
-					t.Check(x.bytesSeq[first-1] == lines[end-1], cBytes.ensures[0], "Scanner over %s: after Scan call %d (= false, v_scanPos still %d) Bytes() is %.40q, v_linesOf[v_scanPos-1] is %.40q", short(s), first, end, x.bytesSeq[first-1], lines[end-1])
+				first, _ := upToFirstFalse(x)
+				pos := 0
+				for j := 0; j < first; j++ {
+					ok := x.okSeq[j]
+					if ok {
+						pos++
+					}
+					ended := !ok
+					t.Check(!(pos >= 1 && !ended) || (pos <= len(lines) && x.bytesSeq[j] == lines[pos-1]), cBytes.ensures[0], "Scanner over %s: after Scan call %d (= %v, v_scanPos %d) Bytes() is %.40q", short(s), j+1, ok, pos, x.bytesSeq[j])
 				}
 			}
 		})
-	check("bufio.Scanner.Err after the scan has ended (right after the first false Scan): nil iff every line was delivered",
+	check("bufio.Scanner.Err right after the first false Scan (v_scanEnded): nil iff every line was delivered",
 		[]contract{cErr}, bound+usual, func(t *T) {
 			for i, s := range allTexts {
 				t.Case()
@@ -199,16 +196,16 @@ func checksWriter() {
 				t.Check((final == nil) == (end == len(lines)), cErr.ensures[0], "Scanner over %s: delivered %d of %d lines, Err() after the false Scan = %v", short(s), end, len(lines), final)
 			}
 		})
-	check("bufio.Scanner.Err as declared: the clause does not mention the position, so Err() must have the same nil-ness at EVERY moment (before the first Scan, between successful Scans, after the end)",
-		[]contract{cErr}, bound+"; Err() called before the first Scan and after every Scan up to the first false", func(t *T) {
+	check("bufio.Scanner.Err at every moment of the protocol: the clause speaks only once the scan has ended (v_scanEnded: the last Scan returned false)",
+		[]contract{cErr}, bound+"; Err() before the first Scan and after every Scan up to the first false", func(t *T) {
 			for i, s := range allTexts {
 				t.Case()
 				x := runs[i]
 				lines := specSplitLines(s)
 				first, end := upToFirstFalse(x)
-				want := end == len(lines) // v_scanEnd(this) == len(v_linesOf(this))
 				for j := 0; j <= first; j++ {
-					t.Check((x.errSeq[j] == nil) == want, cErr.ensures[0], "Scanner over %s (delivers %d of %d lines, so v_scanEnd != len(v_linesOf)): Err() after %d Scan calls is %v", short(s), end, len(lines), j, x.errSeq[j])
+					ended := j >= 1 && !x.okSeq[j-1]
+					t.Check(!ended || ((x.errSeq[j] == nil) == (end == len(lines))), cErr.ensures[0], "Scanner over %s (delivers %d of %d lines): Err() after %d Scan calls is %v", short(s), end, len(lines), j, x.errSeq[j])
 				}
 			}
 		})
